@@ -91,6 +91,14 @@ func cmdC02(args []string) {
 		c02Held = c02Held[:0]
 	}
 	inDataEOF = false
+	// and from a *bytes.Buffer, the concrete reader the library decodes message payloads from
+	inKind = "buffer"
+	for i := range vf.V {
+		v := &vf.V[i]
+		c02Vector(res, v, dynShape(v.T, v.V), distinct)
+		c02Held = c02Held[:0]
+	}
+	inKind = ""
 	c02Concurrent(res, vf)
 	res.Distinct = len(distinct)
 	res.SetExtra("vectors", len(vf.V))
@@ -316,6 +324,24 @@ func cmdC03(args []string) {
 		}
 	}
 	c03CheckHeld(res)
+	// once more from a *bytes.Buffer, the concrete reader the library decodes message payloads from (a seeded third
+	// of the vectors in the quick tier)
+	inKind = "buffer"
+	fromBuffer := 0
+	for i := range vf.V {
+		v := &vf.V[i]
+		if hasRawAnywhere(v) || typeHasO(v.T) || (!hlib.Thorough() && (i+int(hlib.Seed()))%3 != 0) {
+			continue
+		}
+		c03Vector(res, v, shape(v.T, v.V), map[string]bool{}, proto, agree)
+		fromBuffer++
+		if len(c03Held) >= 64 {
+			c03CheckHeld(res)
+		}
+	}
+	c03CheckHeld(res)
+	inKind = ""
+	res.SetExtra("vectors_decoded_from_bytes_buffer", fromBuffer)
 	res.Distinct = len(distinct)
 	res.SetExtra("vectors", len(vf.V))
 	res.SetExtra("shapes", shapes)
@@ -454,7 +480,7 @@ func c03Vector(res *hlib.Result, v *Vector, sh string, distinct map[string]bool,
 	{
 		fresh := reflect.New(gt)
 		var ferr error
-		if guard(func() { ferr = encoding.NewDecoder(encoding.DefaultCap(), newIn(canon)).Decode(fresh.Interface()) }) == nil && ferr == nil {
+		if guard(func() { ferr = encoding.NewDecoder(encoding.DefaultCap(), newIn(canon).src()).Decode(fresh.Interface()) }) == nil && ferr == nil {
 			freshOK = eqValue(fresh.Elem(), gv)
 		}
 	}
@@ -464,7 +490,7 @@ func c03Vector(res *hlib.Result, v *Vector, sh string, distinct map[string]bool,
 			res.Evaluations++
 			var derr error
 			if p := guard(func() {
-				derr = encoding.NewDecoder(encoding.DefaultCap(), newIn(canon)).Decode(prev.Interface())
+				derr = encoding.NewDecoder(encoding.DefaultCap(), newIn(canon).src()).Decode(prev.Interface())
 			}); p != nil {
 				res.Fail("reflect-decode/panic/used-destination-"+sh, fmt.Sprint(p), mkCase(v, canon, sh))
 			} else if derr != nil {
@@ -478,7 +504,7 @@ func c03Vector(res *hlib.Result, v *Vector, sh string, distinct map[string]bool,
 		// keep the largest value seen for the type, so that later, smaller ones meet leftovers
 		keep := reflect.New(gt)
 		if guard(func() {
-			err = encoding.NewDecoder(encoding.DefaultCap(), newIn(canon)).Decode(keep.Interface())
+			err = encoding.NewDecoder(encoding.DefaultCap(), newIn(canon).src()).Decode(keep.Interface())
 		}) == nil && err == nil {
 			if old, ok := c03UsedDst[key]; !ok || sizeOf(keep.Elem()) >= sizeOf(old.Elem()) {
 				c03UsedDst[key] = keep
@@ -857,19 +883,29 @@ func c08Prefixes(res *hlib.Result, v *Vector, d namedDecoder, enc []byte, sh str
 		res.Evaluations++
 		per[d.name]++
 		kk := k
-		// twice: end of input reported by a separate Read, and together with the last bytes
-		for _, dataEOF := range []bool{false, true} {
+		// three times: end of input reported by a separate Read, together with the last bytes, and from a *bytes.Buffer
+		// (the concrete reader the library decodes message payloads from)
+		for pass := 0; pass < 3; pass++ {
+			dataEOF := pass == 1
 			if dataEOF && k == 0 {
 				continue
 			}
 			var derr error
 			inDataEOF = dataEOF
+			if pass == 2 {
+				inKind = "buffer"
+			}
 			p := guard(func() { _, _, derr = d.fn(enc[:kk]) })
 			inDataEOF = false
+			inKind = ""
 			mode := ""
 			if dataEOF {
 				mode = "+data-with-eof"
 				per[d.name+"/data-with-eof"]++
+			}
+			if pass == 2 {
+				mode = "+from-bytes-buffer"
+				per[d.name+"/from-bytes-buffer"]++
 			}
 			if p != nil {
 				c := mkCase(v, enc[:k], sh)
